@@ -164,8 +164,11 @@ def st_case(draw):
     del order
     present = [draw(st.booleans()) for _ in fields]
     layout = draw(st.sampled_from(["dict", "dict", "dict", "list"]))
+    # what a present field holds: a unique object, or one of the falsy singletons a careless "is it there?" test confuses
+    # with absence
+    pvals = [draw(st.sampled_from(["u", "u", "u", "None", "None", "0", "False", "empty_str", "empty_tuple"])) for _ in fields]
     return {"kind": kind, "fields": fields, "present": present, "layout": layout, "debug": draw(st.integers(0, 2)),
-            "hooks": draw(st.booleans())}
+            "hooks": draw(st.booleans()), "pvals": pvals}
 
 
 # ------------------------------------------------------------------------------------ model construction
@@ -334,9 +337,12 @@ def check_case(ctx: runner.Ctx, case):  # noqa: C901, PLR0912, PLR0915
     # which fields are present in the input: required ones always; positional-only ones too (adaptix documents
     # positional-only parameters as always required)
     present = {}
-    for f, p in zip(fields, case["present"]):
+    pvals = case.get("pvals") or ["u"] * len(fields)
+    for f, p, pv in zip(fields, case["present"], pvals):
         if f["d"] is None or p or f["pk"] == "pos_only" or case["layout"] == "list":
-            present[f["n"]] = ("value-of", f["n"], object())  # unique object: identity is checked
+            # identity is checked: a unique object, or a falsy singleton
+            present[f["n"]] = {"None": None, "0": 0, "False": False, "empty_str": "", "empty_tuple": ()}.get(
+                pv, ("value-of", f["n"], object()))
     if kind == "attrs" and any(f["n"].startswith("_") for f in fields):
         pass
     retort = Retort(recipe=[name_mapping(cls, as_list=True)] if case["layout"] == "list" else [],
@@ -367,6 +373,7 @@ def check_case(ctx: runner.Ctx, case):  # noqa: C901, PLR0912, PLR0915
     ctx.case([case], bool(absent) and (lookalike or skipped_then_present),
              sample={"kind": kind, "fields": fields, "present": sorted(present), "layout": case["layout"], "debug": case["debug"]},
              labels=[f"kind:{kind}", f"layout:{case['layout']}", f"absent:{min(len(absent), 3)}",
+                     *[f"present_value:{pv}" for f, pv in zip(fields, pvals) if f["n"] in present and f["d"] is not None],
                      *(["skipped_then_present"] if skipped_then_present else []),
                      *[f"pk:{f['pk']}" for f in fields], *[f"default:{f['d'][0]}" for f in fields if f["d"]]])
     head = f"kind={kind} layout={case['layout']} debug={case['debug']} fields={fields} present={sorted(present)}\n{src}"
